@@ -39,7 +39,7 @@ for conf_path in sorted(glob.glob(f"/verif/work/confirm/r{rnd}-C*-*.json")):
             continue
         txt = open(f).read()
         try:
-            ev = json.loads(txt[txt.index("{"):txt.rindex("}") + 1])
+            ev, _ = json.JSONDecoder().raw_decode(txt[txt.index("{"):])
         except Exception:
             ev = {"raw": txt[-600:]}
         detection.append({"when": label,
